@@ -12,13 +12,13 @@
                                     `message.attempts = row.attempts + 1`), reschedule (keeps the row and its attempts)
     queue/processor/processor.py    process_one: handler raised -> reschedule (processor-level redelivery)
 
-  Two variants of the code are modelled by the same definitions:
-    `Variant.current`  the repository as found (finding F1): the row is inserted with `attempts = 0`,
-                       `handle_exception` uses the delivered 1-based count as if it were 0-based,
-                       `_handle_running` re-pushes the delivered message object.
-    `Variant.fixed`    the repository with proposed_fixes/F1.diff: the row is inserted with
-                       `attempts = message.attempts`; `handle_exception` converts the delivered 1-based count
-                       to the number of previous attempts; `_handle_running` pushes `copy_with_attempts(0)`.
+  `Variant.fixed` is the code as it is (with the repairs of findings F1 — commit "transient retries carry their
+  attempt count through the queue" — and F12 — "a re-queued RunTask marks its source message processed in the
+  same commit"): the row is inserted with `attempts = message.attempts`; `handle_exception` converts the
+  delivered 1-based count to the number of previous attempts; `_handle_running` pushes `copy_with_attempts(0)`;
+  every commit of the RunTask handler carries `source_message=message`.
+  `Variant.legacy` is kept ONLY to state what was wrong before the F1 repair (row inserted with `attempts = 0`,
+  delivered count used as if 0-based, polling re-pushes the delivered object); nothing else refers to it.
 
   The task is a parameter (`Script`): what the n-th execution does.  Everything the model does not
   track (other context keys, outputs, the other tasks of the stage) is outside; the stage context is
@@ -71,11 +71,8 @@ def Script.at (s : Script) (n : Nat) : Act :=
 /-! ### the pipeline, function by function -/
 
 inductive Variant where
-  | current | fixed
+  | legacy | fixed
   deriving DecidableEq, Repr
-
-/-- `Message.max_attempts` dataclass default -/
-def defaultMax : Nat := 10
 
 /-- a `queue_messages` row holding the task's RunTask -/
 structure Row where
@@ -91,24 +88,23 @@ structure Msg where
   maxAttempts : Nat
   deriving Repr, DecidableEq
 
-/-- `deserialize_message`: pops `attempts` and `max_attempts`, so the dataclass defaults apply -/
-def deserialize (_r : Row) : Msg := { attempts := 0, maxAttempts := defaultMax }
-
-/-- environment of the chain: the queue's own limit and whether the row's `max_attempts` column is
-    copied to the delivered message (`restoreMax`: the engine does not do this; the harness does it
-    from outside when it wants a per-message limit other than the default to be visible at all) -/
+/-- environment of the chain: the queue's own limit (`SqliteQueue.max_attempts`, the poll filter) and the
+    dataclass default of `Message.max_attempts` (10 in the source; the harness reads it off the real class) -/
 structure Env where
   qmax : Nat
-  restoreMax : Bool
+  dfltMax : Nat
   deriving Repr
+
+/-- `deserialize_message`: pops `attempts` and `max_attempts` from the payload, so the dataclass defaults apply;
+    `poll_one` does not read the `max_attempts` column back either -/
+def deserialize (e : Env) (_r : Row) : Msg := { attempts := 0, maxAttempts := e.dfltMax }
 
 /-- the row after `poll_one` claimed it: `attempts = attempts + 1` -/
 def claimed (r : Row) : Row := { r with attempts := r.attempts + 1 }
 
 /-- the message `poll_one` returns: deserialised payload, then `message.attempts = row.attempts + 1` -/
 def delivered (e : Env) (r : Row) : Msg :=
-  { attempts := r.attempts + 1,
-    maxAttempts := if e.restoreMax then r.maxCol else (deserialize r).maxAttempts }
+  { attempts := r.attempts + 1, maxAttempts := (deserialize e r).maxAttempts }
 
 /-- `poll_one` on this row: `none` when the filter `attempts < queue.max_attempts` rejects it;
     otherwise the claimed row and the delivered message -/
@@ -120,7 +116,7 @@ def copyWithAttempts (m : Msg) (a : Nat) : Msg := { m with attempts := a }
 
 /-- `AtomicTransaction.push_message` -/
 def pushMessage (v : Variant) (m : Msg) : Row :=
-  { attempts := (match v with | .current => 0 | .fixed => m.attempts),
+  { attempts := (match v with | .legacy => 0 | .fixed => m.attempts),
     maxCol := m.maxAttempts, payloadAttempts := m.attempts, payloadMax := m.maxAttempts }
 
 /-- `message.max_attempts or 10` -/
@@ -129,7 +125,7 @@ def effMax (m : Msg) : Nat := if m.maxAttempts = 0 then 10 else m.maxAttempts
 /-- `current_attempts` of `handle_exception` -/
 def currentAttempts (v : Variant) (m : Msg) : Nat :=
   match v with
-  | .current => m.attempts            -- `message.attempts or 0`
+  | .legacy => m.attempts             -- `message.attempts or 0`
   | .fixed => m.attempts - 1          -- `max((message.attempts or 0) - 1, 0)`
 
 /-- `handle_exception` on a transient error: `some retry_message` or `none` (mark terminal) -/
@@ -140,7 +136,7 @@ def handleTransient (v : Variant) (m : Msg) : Option Msg :=
 /-- the message `_handle_running` pushes -/
 def pollingMessage (v : Variant) (m : Msg) : Msg :=
   match v with
-  | .current => m
+  | .legacy => m
   | .fixed => copyWithAttempts m 0
 
 /-! ### state machine over queue round trips -/
@@ -151,11 +147,15 @@ structure State where
   execs : Nat                 -- ghost: number of executions of the task so far
   seen : List Ctx             -- ghost: context seen by each execution, oldest first
   done : Option Status        -- status of the CompleteTask that was pushed, if any
+  stale : List Row            -- claimed rows whose handling COMMITTED but which were never acked (worker died):
+                              -- each is marked processed by that commit (`source_message=message`)
   deriving Repr
 
 inductive Op where
   | handle      -- poll_one, run the handler to completion, ack
   | drop        -- poll_one, handler raised before committing anything (or the worker died): reschedule
+  | lose        -- poll_one, the handler runs and commits, then the worker dies: no processor mark, no ack
+  | redeliver (k : Nat)   -- the k-th un-acked row of an already committed delivery is delivered again
   deriving DecidableEq, Repr
 
 /-- what the harness can observe about one op -/
@@ -166,12 +166,15 @@ inductive Obs where
   | retried (n : Nat) (m : Msg) (saw : Ctx) (row : Row) (stored : Bool) (ctx : Ctx)
   | polled (n : Nat) (m : Msg) (saw : Ctx) (row : Row) (ctx : Ctx)
   | completed (n : Nat) (m : Msg) (saw : Ctx) (st : Status) (ctx : Ctx)
+  | lostAck (inner : Obs)                   -- as `inner`, but the delivered row stays in the queue
+  | deduped                                 -- acknowledged without running the handler (processed record found)
   deriving Repr
 
-/-- the first RunTask row, pushed by StartTaskHandler (a fresh message: attempts 0, max = `m`) -/
-def initRow (m : Nat) : Row := { attempts := 0, maxCol := m, payloadAttempts := 0, payloadMax := m }
+/-- the first RunTask row, pushed by StartTaskHandler (a fresh message: attempts 0, default limit) -/
+def initRow (e : Env) : Row := { attempts := 0, maxCol := e.dfltMax, payloadAttempts := 0, payloadMax := e.dfltMax }
 
-def init (m : Nat) (c : Ctx) : State := { row := some (initRow m), ctx := c, execs := 0, seen := [], done := none }
+def init (e : Env) (c : Ctx) : State :=
+  { row := some (initRow e), ctx := c, execs := 0, seen := [], done := none, stale := [] }
 
 /-- the RunTask handler on a delivered message: execute the task, then commit the outcome -/
 def handleMsg (v : Variant) (sc : Script) (s : State) (m : Msg) : State × Obs :=
@@ -198,7 +201,8 @@ def handleMsg (v : Variant) (sc : Script) (s : State) (m : Msg) : State × Obs :
     let row := pushMessage v (pollingMessage v m)
     ({ s1 with ctx := ctx', row := some row }, .polled n m s.ctx row ctx')
 
-def step (v : Variant) (e : Env) (sc : Script) (s : State) (op : Op) : State × Obs :=
+/-- ops on the live RunTask row of the task -/
+def stepLive (v : Variant) (e : Env) (sc : Script) (s : State) (op : Op) : State × Obs :=
   match s.row with
   | none => (s, .noRow)
   | some r =>
@@ -207,7 +211,23 @@ def step (v : Variant) (e : Env) (sc : Script) (s : State) (op : Op) : State × 
     | some (r', m) =>
       match op with
       | .drop => ({ s with row := some r' }, .dropped r'.attempts)
-      | .handle => handleMsg v sc s m
+      | .lose =>
+        -- every commit of the handler marks the delivered message processed; the claimed row is left behind
+        let res := handleMsg v sc s m
+        ({ res.1 with stale := res.1.stale ++ [r'] }, .lostAck res.2)
+      | _ => handleMsg v sc s m
+
+/-- a left-behind row is delivered again: `_handle_message` finds its processed record (C09) and the
+    processor acknowledges it without running the handler -/
+def stepRedeliver (e : Env) (s : State) (k : Nat) : State × Obs :=
+  match s.stale[k]? with
+  | none => (s, .noRow)
+  | some r => if r.attempts < e.qmax then ({ s with stale := s.stale.eraseIdx k }, .deduped) else (s, .stuck)
+
+def step (v : Variant) (e : Env) (sc : Script) (s : State) (op : Op) : State × Obs :=
+  match op with
+  | .redeliver k => stepRedeliver e s k
+  | _ => stepLive v e sc s op
 
 def run (v : Variant) (e : Env) (sc : Script) (s : State) : List Op → State
   | [] => s
@@ -219,8 +239,9 @@ def trace (v : Variant) (e : Env) (sc : Script) (s : State) : List Op → List O
 
 /-! ### driver
 
-  `retry <current|fixed> q=<qmax> shim=<0|1> max=<M> ctx=<kv|-> script=<act;act;...|-> dflt=<act> ops=<h|x ...|->`
-  `kv`  = `k:v,k:v` (keys 0..15);  `act` = `F<kv>` | `S<kv>` | `R<kv>` | `P`;  ops: string over `h` (handle) and `x` (drop)
+  `retry <legacy|fixed> q=<qmax> dm=<dataclass default> ctx=<kv|-> script=<act;act;...|-> dflt=<act> ops=<op,op,...|->`
+  `kv`  = `k:v,k:v` (keys 0..15);  `act` = `F<kv>` | `S<kv>` | `R<kv>` | `P`;
+  ops: `h` handle, `x` drop, `l` lose, `r<k>` redeliver the k-th left-behind row; separated by `.`
   answer: one item per op joined by `|`, then `end ...`
 -/
 
@@ -248,10 +269,15 @@ def parseAct (s : String) : Option Act :=
   | "P" => if body.isEmpty then some .failP else none
   | _ => none
 
+def parseOp (s : String) : Option Op :=
+  if s == "h" then some .handle
+  else if s == "x" then some .drop
+  else if s == "l" then some .lose
+  else if s.startsWith "r" then (Parse.nat? (s.drop 1).toString).map .redeliver
+  else none
+
 def parseOps (s : String) : Option (List Op) :=
-  if s == "-" then some [] else
-  Parse.all? (fun c => if c == "h" then some Op.handle else if c == "x" then some Op.drop else none)
-    (s.toList.map (fun c => String.singleton c))
+  if s == "-" then some [] else Parse.all? parseOp (s.splitOn ".")
 
 def kvArg (key : String) (tok : String) : Option String :=
   if tok.startsWith (key ++ "=") then some (tok.drop (key.length + 1)).toString else none
@@ -261,6 +287,7 @@ def showRow (r : Row) : String := s!"{r.attempts}/{r.maxCol}"
 def showObs : Obs → String
   | .noRow => "none"
   | .stuck => "stuck"
+  | .deduped => "dedup"
   | .dropped a => s!"x:{a}"
   | .retried n m saw row stored ctx =>
     s!"E{n + 1} a={m.attempts} m={m.maxAttempts} see={showCtx saw} retry:{showRow row} v{if stored then 1 else 0} c={showCtx ctx}"
@@ -268,6 +295,7 @@ def showObs : Obs → String
     s!"E{n + 1} a={m.attempts} m={m.maxAttempts} see={showCtx saw} poll:{showRow row} v1 c={showCtx ctx}"
   | .completed n m saw st ctx =>
     s!"E{n + 1} a={m.attempts} m={m.maxAttempts} see={showCtx saw} done:{st.name} v1 c={showCtx ctx}"
+  | .lostAck o => showObs o ++ " noack"
 
 /-- task / stage / workflow status once everything else has been drained, for the single-stage
     workflows the harness builds (every other task succeeds): they follow the task's CompleteTask;
@@ -280,25 +308,24 @@ def finalStatuses (s : State) : String :=
 def showEnd (s : State) : String :=
   let d := match s.done with | some st => st.name | none => "-"
   let r := match s.row with | some r => showRow r | none => "-"
-  s!"end execs={s.execs} done={d} row={r} c={showCtx s.ctx} fin={finalStatuses s}"
+  s!"end execs={s.execs} done={d} row={r} stale={s.stale.length} c={showCtx s.ctx} fin={finalStatuses s}"
 
 def drive (rest : String) : String :=
   match rest.splitOn " " with
-  | [v, q, sh, mx, cx, scr, df, ops] =>
-    let parsed : Option (Variant × Env × Nat × Ctx × Script × List Op) := do
-      let v ← (if v == "current" then some Variant.current else if v == "fixed" then some Variant.fixed else none)
+  | [v, q, dm, cx, scr, df, ops] =>
+    let parsed : Option (Variant × Env × Ctx × Script × List Op) := do
+      let v ← (if v == "legacy" then some Variant.legacy else if v == "fixed" then some Variant.fixed else none)
       let q ← (kvArg "q" q) >>= Parse.nat?
-      let sh ← (kvArg "shim" sh) >>= Parse.bool?
-      let mx ← (kvArg "max" mx) >>= Parse.nat?
+      let dm ← (kvArg "dm" dm) >>= Parse.nat?
       let cx ← (kvArg "ctx" cx) >>= parseCtx
       let scr ← kvArg "script" scr
       let acts ← (if scr == "-" then some [] else Parse.all? parseAct (scr.splitOn ";"))
       let df ← (kvArg "dflt" df) >>= parseAct
       let ops ← (kvArg "ops" ops) >>= parseOps
-      pure (v, { qmax := q, restoreMax := sh }, mx, cx, { acts := acts, dflt := df }, ops)
+      pure (v, { qmax := q, dfltMax := dm }, cx, { acts := acts, dflt := df }, ops)
     match parsed with
-    | some (v, e, mx, cx, sc, ops) =>
-      let s0 := init mx cx
+    | some (v, e, cx, sc, ops) =>
+      let s0 := init e cx
       let obs := trace v e sc s0 ops
       "|".intercalate (obs.map showObs ++ [showEnd (run v e sc s0 ops)])
     | none => "bad-request"
